@@ -19,6 +19,21 @@ Definition decl := (str * dec * str)%type.
 Definition recip (p : dec) : dec :=
   match div one p with DOk x => truncate x 8 | DPanic => dec_zero end.
 
+(* ... stated without the division algorithm: n is a/b rounded to the nearest integer, ties away
+   from zero *)
+Definition nearest_half_away (a b n : Z) : Prop :=
+  2 * Z.abs (a - n * b) <= Z.abs b /\
+  (2 * Z.abs (a - n * b) = Z.abs b -> Z.abs a < Z.abs (n * b)).
+
+(* 10^16 / p as a fraction of integers (p = coef * 10^ex) *)
+Definition recip_fraction (p : dec) : Z * Z :=
+  if ex p <=? 16 then (pow10 (16 - ex p), coef p) else (1, coef p * pow10 (ex p - 16)).
+
+(* r is 1/p rounded to 16 places half away from zero, then cut (toward zero) to 8 places *)
+Definition is_recip (p r : dec) : Prop :=
+  exists n, nearest_half_away (fst (recip_fraction p)) (snd (recip_fraction p)) n /\
+            r = mkDec (Z.quot n (pow10 8)) (-8).
+
 (* ps[t][c]: the stored price of commodity c in target t *)
 Definition stored (ps : prices) (t c : str) : option dec :=
   match sm_get ps t with Some m => sm_get m c | None => None end.
